@@ -27,6 +27,9 @@ def directed_cases():
     for k in range(10):
         cases.append(("method", {"cls": "SmoothStronglyConvexFunction", "mode": "single", "box": True}, "d:ssc%d" % k))
     cases.append(("big", {"N": 11}, "d:big"))
+    for cls in CLASSES:
+        for variant in (0, 1):
+            cases.append(("classcover", {"cls": cls, "variant": variant}, "d:cover:%s:%d" % (cls, variant)))
     return cases
 
 
